@@ -1,2 +1,63 @@
-(** C09 - theorems under construction. *)
-From Coq Require Import ZArith.
+(** C09 - parsing is monotonic in the decimal value.
+    FULL STATEMENT (needs C01/C02, not yet closed):  valid a -> valid b -> dec_value a <= dec_value b ->
+      bits (parse_float a) <= bits (parse_float b).
+    PROVED (closed by [exact]; spec/RoundFacts.v): the oracle is monotone - RN f v <= RN f v' for
+    0 <= v <= v' as integers, which on non-negative patterns is the order of the floats incl. +inf
+    ([bits_le_iff]); the overflow / underflow switch-overs sit exactly at the IEEE thresholds.
+    The check compares ordered neighbours on the real code directly (w, w+1; last digit +-1;
+    exponent +-1 across every algorithm switch-over). *)
+
+From Coq Require Import ZArith QArith List Bool Reals.
+From Coq Require Import Floats.SpecFloat.
+From Flocq Require Import Core.Core.
+From ML Require Import base.RustSem model.Fmt model.FloatOps model.Number model.Parse model.Top spec.Decimal spec.Round spec.RoundFacts
+  gen.Consts gen.Tables gen.BTables gen.PowDump proofs.ParseFacts proofs.Glue proofs.NoUB.
+Import ListNotations.
+
+Open Scope Z_scope.
+
+Theorem C09_RN_monotone :
+  forall f : format, sfmt_ok f = true -> forall v v' : Q, (0 <= v)%Q -> (v <= v')%Q -> RN f v <= RN f v'.
+Proof. exact RN_monotone. Qed.
+
+Theorem C09_bits_le_iff :
+  forall f : format,
+         sfmt_ok f = true ->
+         forall s1 s2 : spec_float,
+         valid_binary (prec f) (emax f) s1 = true ->
+         valid_binary (prec f) (emax f) s2 = true ->
+         nonneg_sf s1 = true ->
+         nonneg_sf s2 = true -> (SF2R_inf f s1 <= SF2R_inf f s2)%R <-> bits_of_sf f s1 <= bits_of_sf f s2.
+Proof. exact bits_le_iff. Qed.
+
+Theorem C09_bits_lt_iff :
+  forall f : format,
+         sfmt_ok f = true ->
+         forall s1 s2 : spec_float,
+         valid_binary (prec f) (emax f) s1 = true ->
+         valid_binary (prec f) (emax f) s2 = true ->
+         nonneg_sf s1 = true ->
+         nonneg_sf s2 = true -> (SF2R_inf f s1 < SF2R_inf f s2)%R <-> bits_of_sf f s1 < bits_of_sf f s2.
+Proof. exact bits_lt_iff. Qed.
+
+Theorem C09_RN_range :
+  forall f : format, sfmt_ok f = true -> forall v : Q, (0 <= v)%Q -> 0 <= RN f v <= inf_bits f.
+Proof. exact RN_range. Qed.
+
+Theorem C09_overflow_threshold_iff :
+  forall f : format,
+         sfmt_ok f = true -> forall v : Q, (0 <= v)%Q -> RN f v = inf_bits f <-> (overflow_thresholdQ f <= v)%Q.
+Proof. exact overflow_threshold_iff. Qed.
+
+Theorem C09_underflow_threshold_iff :
+  forall f : format,
+         sfmt_ok f = true -> forall v : Q, (0 <= v)%Q -> RN f v = 0 <-> (v <= underflow_thresholdQ f)%Q.
+Proof. exact underflow_threshold_iff. Qed.
+
+
+Print Assumptions C09_RN_monotone.
+Print Assumptions C09_bits_le_iff.
+Print Assumptions C09_bits_lt_iff.
+Print Assumptions C09_RN_range.
+Print Assumptions C09_overflow_threshold_iff.
+Print Assumptions C09_underflow_threshold_iff.
